@@ -43,7 +43,8 @@ if [ -d "$SRC/demo" ] && [ $build = ok ]; then
     demo_with=not-a-go-test; demo_without=not-a-go-test
   fi
 fi
-mkdir -p "$ROOT/seeded/$ID"; cp "$WT.patch" "$ROOT/seeded/$ID/patch.diff"; rm -rf "$ROOT/seeded/$ID/demo"; [ -d "$SRC/demo" ] && cp -r "$SRC/demo" "$ROOT/seeded/$ID/demo"; [ -f "$SRC/notes.md" ] && cp "$SRC/notes.md" "$ROOT/seeded/$ID/notes.md"
+mkdir -p "$ROOT/seeded/$ID"
+if [ "$(readlink -f "$SRC")" != "$(readlink -f "$ROOT/seeded/$ID")" ]; then cp "$WT.patch" "$ROOT/seeded/$ID/patch.diff"; rm -rf "$ROOT/seeded/$ID/demo"; [ -d "$SRC/demo" ] && cp -r "$SRC/demo" "$ROOT/seeded/$ID/demo"; [ -f "$SRC/notes.md" ] && cp "$SRC/notes.md" "$ROOT/seeded/$ID/notes.md"; fi
 cd "$ROOT"
 # the check
 check=skipped
